@@ -663,6 +663,15 @@ func checkSequence(os_ outputSet, seqShapes []shape, mode string) (string, strin
 			continue
 		}
 		for o := range per {
+			// absolute guard next to the differential oracle: the read buffer is overwritten with '#' after every Accept, as
+			// the TCP reader reuses it. No shape contains a run of '#', so a run of them in the output means a field still
+			// points into the caller's read buffer — also when the record is processed alone (which the differential
+			// oracle cannot see, both runs being affected alike).
+			for name, v := range per[o][i].fields {
+				if strings.Contains(v, "########") {
+					return "alias:field-points-into-read-buffer", fmt.Sprintf("outputs %s, sequence [%s], mode %s: record #%d (%s) on output %d: field %s reads %q — bytes of the reused read buffer, overwritten after the call", os_.name, seqNames(seqShapes), mode, i, sh.name, o, name, clip(v))
+				}
+			}
 			if f, got, want := firstDiff(per[o][i], alone.outputs[o], sh.tsFromRec); f != "" {
 				return "history:" + f, fmt.Sprintf("outputs %s, sequence [%s], mode %s: record #%d (%s) on output %d (%s): field %s = %q after this history, but %q when the record is processed alone on a fresh pipeline",
 					os_.name, seqNames(seqShapes), mode, i, sh.name, o, os_.outputs[o], f, clip(got), clip(want))
